@@ -390,6 +390,12 @@ fn grammar_docs(tier: &str) -> Vec<String> {
 /// long, non-ASCII and multi-byte texts (for every byte offset some entry has a character straddling it)
 fn text_menu() -> Vec<String> {
     let mut menu: Vec<String> = vec!["".into(), "abc".into(), "x".repeat(40), "x".repeat(300), "\u{e9}".into(), "\u{20ac}".into(), "\u{1d11e}".into(), "\u{e9}".repeat(40), "1.5\u{20ac}".into(), "\u{202e}abc".into(), "a\u{301}".repeat(30)];
+    // numbers at and beyond the integer and float ranges, in the spellings a writer may produce
+    for t in ["18446744073709551615", "18446744073709551616", "-9223372036854775809", "99999999999999999999999999", "340282366920938463463374607431768211456", "+1", "1.", ".5", "1e400", "-1e400", "0x10", "1_000", "1e-400", "00000000000000000000000000000001"] {
+        menu.push(t.to_string());
+    }
+    menu.push("9".repeat(400));
+    menu.push(format!("0.{}1", "0".repeat(400)));
     for k in 0..4 {
         menu.push(format!("{}{}", "a".repeat(k), "\u{20ac}".repeat(24)));
         menu.push(format!("{}{}", "1".repeat(k), "\u{1d11e}".repeat(20)));
